@@ -91,7 +91,12 @@ EXTRA_USAGE = {
               "#[derive(derive_more::Error)] #[derive(Debug)] pub struct Sx { source: H<(), 1>, other: u8 }\n" + _DISP,
               "#[derive(derive_more::Error)] #[derive(Debug)] pub struct Sx(#[error(ignore)] u8, #[error(source)] H<(), 1>);\n" + _DISP,
               "#[derive(derive_more::Error)] #[derive(Debug)] pub enum Sx { Aa(H<(), 1>), B { source: H<(), 1>, fx: u8 }, #[error(ignore)] Ig(H<(), 1>), Cc }\n" + _DISP,
-              "#[derive(derive_more::Error)] #[derive(Debug)] pub struct Sx;\n" + _DISP],
+              "#[derive(derive_more::Error)] #[derive(Debug)] pub struct Sx;\n" + _DISP,
+              # trait-object sources of every flavour the vendored `AsDynError` supports
+              "#[derive(derive_more::Error)] #[derive(Debug)] pub struct Sx { source: Box<dyn ::core::error::Error + 'static> }\n" + _DISP,
+              "#[derive(derive_more::Error)] #[derive(Debug)] pub struct Sx { source: Box<dyn ::core::error::Error + Send + 'static> }\n" + _DISP,
+              "#[derive(derive_more::Error)] #[derive(Debug)] pub struct Sx { source: Box<dyn ::core::error::Error + Send + Sync + 'static> }\n" + _DISP,
+              "#[derive(derive_more::Error)] #[derive(Debug)] pub struct Sx { source: Box<dyn ::core::error::Error + Send + Sync + ::core::panic::UnwindSafe + 'static> }\n" + _DISP],
 }
 
 
@@ -136,8 +141,11 @@ def usage_crate(dirpath, feats, std, derives):
         if d["feature"] not in feats:
             continue
         for k, mod in enumerate(um.get(d["name"], [])):
-            parts.append("pub mod u_%s_%d {\n%s\n}\n" % (d["name"].lower(), k, mod))
-            n += 1
+            # through each of the three documented paths of the derive macro
+            for pi, path in enumerate(("derive_more::", "derive_more::with_trait::", "derive_more::derive::")):
+                text = mod.replace("#[derive(derive_more::%s)]" % d["name"], "#[derive(%s%s)]" % (path, d["name"]))
+                parts.append("pub mod u_%s_%d_%d {\n%s\n}\n" % (d["name"].lower(), k, pi, text))
+                n += 1
     with open(os.path.join(dirpath, "src", "lib.rs"), "w") as f:
         f.write("".join(parts))
     return n
